@@ -19,6 +19,7 @@ extern "C" void __sanitizer_set_death_callback(void (*)(void)) __attribute__((we
 
 static std::map<std::string, std::string> g_params;
 static std::string g_out;
+static std::string g_journal; // if set: the raw tape of every case is written here before the case runs (crash triage of last resort)
 
 // ---------------------------------------------------------------- crash dump
 // The case being run, kept where a signal handler can reach it.
@@ -81,16 +82,30 @@ static void on_alarm(int)
 	}
 	g_alarm_seen_case = g_case_no;
 }
+static void catch_signal(int sig)
+{
+	struct sigaction sa;
+	memset(&sa, 0, sizeof sa);
+	sa.sa_handler = on_signal;
+	sa.sa_flags = SA_ONSTACK | SA_NODEFER; // the case may have died on an overflowed or smashed (coroutine) stack
+	sigaction(sig, &sa, nullptr);
+}
 static void install_handlers(int watchdog_s)
 {
-	signal(SIGABRT, on_signal);
-	signal(SIGILL, on_signal);
+	static char altstack[1 << 16];
+	stack_t ss;
+	ss.ss_sp = altstack;
+	ss.ss_size = sizeof altstack;
+	ss.ss_flags = 0;
+	sigaltstack(&ss, nullptr);
+	catch_signal(SIGABRT);
+	catch_signal(SIGILL);
 	if (__sanitizer_set_death_callback)
 		__sanitizer_set_death_callback(on_death);
 	else {
-		signal(SIGSEGV, on_signal);
-		signal(SIGBUS, on_signal);
-		signal(SIGFPE, on_signal);
+		catch_signal(SIGSEGV);
+		catch_signal(SIGBUS);
+		catch_signal(SIGFPE);
 	}
 	if (watchdog_s > 0) {
 		signal(SIGALRM, on_alarm);
@@ -139,6 +154,17 @@ struct CaseOut {
 
 static void execute(const uint32_t *raw, size_t n, bool enumerating, bool want_log, CaseOut &o)
 {
+	if (!g_journal.empty()) {
+		FILE *jf = fopen(g_journal.c_str(), "w");
+		if (jf) {
+			fprintf(jf, "# librfn-verif replay (journalled before the case ran; the process died in it)\n%s%stape %zu", g_hdr,
+				enumerating ? "" : "", n);
+			for (size_t i = 0; i < n; i++)
+				fprintf(jf, " %u", raw[i]);
+			fprintf(jf, "\n");
+			fclose(jf);
+		}
+	}
 	o.t = Tape();
 	o.t.raw = raw;
 	o.t.nraw = n;
@@ -599,6 +625,8 @@ int main(int argc, char **argv)
 			g_out = val();
 		else if (a == "--quiet")
 			quiet = true;
+		else if (a == "--journal")
+			g_journal = val();
 		else if (a == "--param") {
 			std::string kv = val();
 			auto eq = kv.find('=');
